@@ -343,7 +343,8 @@ class ClientWebSocketResponse(Generic[_DecodeText]):
             self._response.close()
             return True
 
-        if self._close_code:
+        if self._close_code is not None:
+            # (0: the peer's close frame carried no status code)
             self._response.close()
             return True
 
